@@ -20,7 +20,7 @@ import (
 
 // ---- C07: mkdir never escapes the target directory and validates names first
 
-var c07Names = []string{"x", "..", ".", "a/b", "/abs", "../x", "x/..", "../../y", "abs", "abs/", "/", "//", "a\\b"} // "abs" is the valid twin of "/abs" and "abs/"; a backslash is an ordinary character of a path element here
+var c07Names = []string{"x", "..", ".", "a/b", "/abs", "../x", "x/..", "../../y", "abs", "abs/", "/", "//", "a\\b", "..x"} // "abs" is the valid twin of "/abs" and "abs/"; a backslash is an ordinary character of a path element here, and "..x" is an ordinary name
 
 func validElement(n string) bool {
 	return n != "" && n != "." && n != ".." && !strings.Contains(n, "/")
